@@ -16,6 +16,7 @@ import (
 // a write racing with readers), so its result is reported by shape only.
 // A line "PRE op|op|..." is a prelude: those ops run sequentially first.
 func raceMain(args []string) {
+	reuseOK = false // concurrent callers each own their entropy buffer
 	f, err := os.Open(args[0])
 	if err != nil {
 		panic(err)
